@@ -15,6 +15,10 @@ also compared VERBATIM — the message strings of the direct call with `validate
 outcome class + exception arguments of validate_data(tracklet=True) with `validateDataTracks` (op "data"); a dtype /
 memory-layout stream (`run_dtyped`) and histories on one in-memory geff object with re-used configs (`run_histories`)
 go through the same two ops, each with a model-free verdict from the oracles.
+
+History dimension (GeffProps.C13Hist; model GeffModel/TrackletHist.lean, driver op "hist"): `run_array_histories` makes 3-7 calls of
+validate_tracklets / validate_lineages / validate_data on the SAME numpy array objects, edited in place between the calls (edge rows,
+node ids, ids, whole arrays overwritten; one node array re-used with two edge arrays); every call is judged on the CURRENT contents.
 """
 from __future__ import annotations
 
@@ -1231,6 +1235,65 @@ def ah_reqs(ah):
     return per
 
 
+def ah_hist_req(ah):
+    """the whole history as ONE request of the Lean history model `runHist` (GeffModel/TrackletHist.lean): a heap of array objects
+    addressed by position — a slot that shares slot 0's node array gets slot 0's ADDRESS —, in-place edits and calls"""
+    ints, pairs, addr = [], [], []
+    for s in ah["slots"]:
+        a = {}
+        if s["nodes"] is None:
+            a["nodes"] = addr[0]["nodes"]
+        else:
+            a["nodes"] = len(ints)
+            ints.append([str(x) for x in s["nodes"]])
+        for k in ("labels", "lin"):
+            a[k] = len(ints)
+            ints.append([str(x) for x in s[k]])
+        a["edges"] = len(pairs)
+        pairs.append([[str(u), str(v)] for u, v in s["edges"]])
+        addr.append(a)
+    ops = []
+    mirror = ah_initial(ah)
+    for st in ah["steps"]:
+        a, op = addr[st["slot"]], st["op"]
+        if op not in AH_CALLS:
+            ah_edit(mirror, st)
+        if op == "set_edge":
+            ops.append({"k": "setPair", "a": a["edges"], "i": st["i"], "e": [str(x) for x in st["e"]]})
+        elif op == "set_node":
+            ops.append({"k": "setInt", "a": a["nodes"], "i": st["i"], "x": str(st["x"])})
+            if st.get("rename"):       # the consistent renaming in the edge arrays = these arrays overwritten with the renamed rows
+                for a2, m2 in zip(addr, mirror):
+                    if a2["nodes"] == a["nodes"]:
+                        ops.append({"k": "loadPair", "a": a2["edges"], "es": [[str(u), str(v)] for u, v in m2["edges"]]})
+        elif op in ("set_label", "set_lin"):
+            ops.append({"k": "setInt", "a": a["labels" if op == "set_label" else "lin"], "i": st["i"], "x": str(st["x"])})
+        elif op == "load_edges":
+            ops.append({"k": "loadPair", "a": a["edges"], "es": [[str(u), str(v)] for u, v in st["edges"]]})
+        elif op == "load_labels":
+            ops.append({"k": "loadInt", "a": a["labels"], "xs": [str(x) for x in st["labels"]]})
+        elif op == "trk":
+            ops.append({"k": "trk", "n": a["nodes"], "e": a["edges"], "l": a["labels"]})
+        elif op == "lin":
+            ops.append({"k": "lin", "n": a["nodes"], "e": a["edges"], "l": a["lin"]})
+        else:
+            s = ah["slots"][st["slot"]]
+            ops.append({"k": "data", "n": a["nodes"], "e": a["edges"], "cfg": {"tracklet": bool(st["cfg"][0]), "lineage": bool(st["cfg"][1])},
+                        "tnp": H_DECLARES[s["declares"]],
+                        "props": [[k, {"values": a["labels" if k == "trk" else "lin"], "missing": s.get("trk_missing") if k == "trk" else None}]
+                                  for k in _ah_names(s["declares"])]})
+    return {"op": "hist", "ints": ints, "pairs": pairs, "ops": ops}
+
+
+def ah_same_trace(st, m, r):
+    """one entry of the trace of `runHist` == implementation observation of that call (verbatim)"""
+    if "err" in m or "exc" in m or "exc" in r:
+        return False
+    if st["op"] in ("trk", "lin"):
+        return m.get("valid") == r["valid"] and m.get("messages") == r["messages"]
+    return same_vd(m, r)
+
+
 def _ah_names(declares):
     """insertion order of the id properties in node_props"""
     return ["trk", "lin"] if declares != "lineage,tracklet" else ["lin", "trk"]
@@ -1294,10 +1357,15 @@ def ah_step_verdict(st, cur, r):
     return bad
 
 
-def judge_array_history(ck, ah, outs, per_model):
+def judge_array_history(ck, ah, outs, per_model, trace=None):
     """-> list of (key, message) (model-free); model disagreements go to ck.corr_broken"""
     bad = []
     k = 0
+    if trace is not None:
+        calls = [(st, r) for st, r in zip(ah["steps"], outs) if r is not None]
+        tr = trace.get("trace")
+        if tr is None or len(tr) != len(calls) or not all(ah_same_trace(st, m, r["shared"]) for (st, r), m in zip(calls, tr)):
+            ck.corr_broken("C13:runHist(history of calls and in-place edits)", {"array_history": ah}, [r["shared"] for _, r in calls], trace)
     for i, (st, cur, r) in enumerate(zip(ah["steps"], ah_states(ah), outs)):
         if cur is None:
             continue
@@ -1438,17 +1506,18 @@ def exhaustive_array_histories(nmax):
 
 def run_array_histories(ck, drv, cases, corpus_hist):
     pool = [c for c in cases if c.get("missing") is None and c.get("dtype") is None and c["nodes"] and in_domain(c)
-            and all(abs(x) < 2 ** 40 for x in c["nodes"])]
+            and all(abs(x) < 2 ** 40 for x in c["nodes"]) and len(c["nodes"]) <= 14]   # small graphs: the dimension explored here is the history
     hs = list(corpus_hist) + list(exhaustive_array_histories(3 if ck.quick else 4))
     n_fixed = len(hs)
     hs += [gen_array_history(ck.rng, pool, j) for j in range(1500 if ck.quick else 12000)]
     per = [ah_reqs(ah) for ah in hs]
     mflat = drv.ask([r for p in per for r in p])
-    if mflat is None:
+    traces = drv.ask([ah_hist_req(ah) for ah in hs])
+    if mflat is None or traces is None:
         ck.broken.append({"what": "driver Drivers/C13.lean (array-history stream)", "detail": drv.broken})
     pos = 0
     stats = {"calls": 0, "calls_after_an_in_place_edit_of_ids": 0, "verdict_differs_from_previous_call_on_same_arrays": 0}
-    for ah, outs, p in zip(hs, common.pmap(impl_array_history, hs, chunksize=32), per):
+    for hi, (ah, outs, p) in enumerate(zip(hs, common.pmap(impl_array_history, hs, chunksize=32), per)):
         mo = None if mflat is None else mflat[pos:pos + len(p)]
         pos += len(p)
         calls = [st["op"] for st in ah["steps"] if st["op"] in AH_CALLS]
@@ -1470,7 +1539,7 @@ def run_array_histories(ck, drv, cases, corpus_hist):
             if key in last and last[key] != sig:
                 stats["verdict_differs_from_previous_call_on_same_arrays"] += 1
             last[key] = sig
-        for key, what in judge_array_history(ck, ah, outs, mo)[:1]:
+        for key, what in judge_array_history(ck, ah, outs, mo, None if traces is None else traces[hi])[:1]:
             ck.fail(key, what, {"array_history": ah}, [o for o in outs if o is not None], None)
     ck.extra["array_object_histories"] = {"corpus+exhaustive": n_fixed, "random": len(hs) - n_fixed, **stats}
 
@@ -1590,7 +1659,7 @@ def judge(ck, c, im, mo, mo_arrays=None, mo_data=None):
 
 
 def run(ck: common.Check):
-    ck.prove(["GeffProps.C13", "GeffProps.C13Inv", "GeffProps.C13Data"])
+    ck.prove(["GeffProps.C13", "GeffProps.C13Inv", "GeffProps.C13Data", "GeffProps.C13Hist", "GeffProps.C13Gen"])
     ck.rule = ("cases = corpus + ALL labelled DAGs on <=4 nodes up to renaming of labels (both tiers) + all cyclic "
                "digraphs on <=3 (quick) / <=4 (thorough) nodes (model==implementation only) + all DAGs on <=4 nodes x "
                "every non-empty missing mask x labellings (through validate_data) + sampled DAGs on 5-6 nodes + random "
@@ -1608,7 +1677,13 @@ def run(ck: common.Check):
                "uint64 >= 2^63), arrays plain / read-only / non-contiguous / row-strided / Fortran / big-endian, direct and through validate_data; "
                "+ object histories: ONE in-memory geff (tracklet + lineage ids, independent missing masks, both key orders, sometimes a declared "
                "property absent or a mask of the wrong / zero length) validated 3-6 times with re-used ValidationConfig objects over "
-               "{tracklet, lineage, both}, the tracklet-id array edited in place between calls")
+               "{tracklet, lineage, both}, the tracklet-id array edited in place between calls; + array-object histories (graphs of <= 14 nodes): 1-2 slots of numpy arrays "
+               "(node ids, edge ids, tracklet ids, lineage ids; the second slot may hold the SAME node-id array object with another edge array) and one "
+               "in-memory geff per slot built from these objects, 3-7 calls of validate_tracklets / validate_lineages / validate_data interleaved with "
+               "in-place edits (one edge row, one node id plain or renamed consistently, one tracklet / lineage id, whole edge array overwritten, "
+               "tracklet ids overwritten by the true partition of the current graph), every call judged on the CURRENT contents (oracle, Lean model per "
+               "call and whole trace via runHist, fresh copies after the history); bounded-exhaustive: every DAG on 2-3 (thorough 4) nodes with an edge x "
+               "every replacement of one edge row x 3 labellings x (call, edit, call) patterns over the entry points")
     corpus_all = list(corpus())
     grid_corpus = [c for c in corpus_all if "lineage_labels" in c]     # regression inputs of the all-configs grid
     corpus_hist = [c["array_history"] for c in corpus_all if "array_history" in c]     # histories of calls on re-used array objects
